@@ -158,7 +158,7 @@ fn access(cfg: &RunCfg, rep: &mut Report) {
 
 fn sha(cfg: &RunCfg, rep: &mut Report) {
     let g = graph(vec![sol(0, vec![])], 0);
-    let maxlen = cfg.tier.pick(72, 264);
+    let maxlen = cfg.tier.pick(264, 1100);
     for len in 0..=maxlen {
         if !cfg.mine(len as u64) {
             continue;
@@ -281,7 +281,7 @@ fn secp(cfg: &RunCfg, rep: &mut Report) {
     let g = graph(vec![sol(0, vec![])], 0);
     let op = Op::Crypto(asm::Crypto::RecoverSecp256k1);
     let secp = Secp256k1::new();
-    let stride = cfg.tier.pick(8, 1);
+    let stride = cfg.tier.pick(1, 1);
     let mut n = 0u64;
     for k in 1..=3u8 {
         let sk = SecretKey::from_slice(&[k.wrapping_mul(29); 32]).unwrap();
@@ -333,7 +333,7 @@ fn secp(cfg: &RunCfg, rep: &mut Report) {
 }
 
 fn run(cfg: &RunCfg, rep: &mut Report) {
-    rep.bound_completed = format!("see rule; sha256 lengths 0..={}, secp256k1 bit stride {}", cfg.tier.pick(72, 264), cfg.tier.pick(8, 1));
+    rep.bound_completed = format!("see rule; sha256 lengths 0..={}, secp256k1 bit stride {}", cfg.tier.pick(264, 1100), cfg.tier.pick(1, 1));
     access(cfg, rep);
     sha(cfg, rep);
     ed(cfg, rep);
